@@ -331,5 +331,54 @@ M_IO = {
             "Async::poll_read_vectored", "Async::poll_write", "Async::poll_write_vectored", "Async::poll_flush"], "all paths"),
 }
 
-PROPS["DEV"] = dict(level="proof", k=[], m=list(M_IO.values()))
+from mirsym import pqueries as PQ   # noqa: E402
 
+P_Q = {
+    "ping": M("p_ping", PQ.p_ping, PQ.p_ping.__doc__, ["Ping::ping", "<FlagOnDrop as Drop>::drop", "<PingSource as EventSource>::process_events"],
+              "2 pinger threads (3 pings + close marker), loop <= 3 rounds (4 thorough), every interleaving of <= 10 atomic operations",
+              replay=["p_ping_stress"], kind="P"),
+    "chan": M("p_chan", PQ.p_chan, PQ.p_chan.__doc__, ["channel::Sender::send", "channel::SyncSender::try_send", "channel::SyncSender::send",
+              "<PingOnDrop as Drop>::drop", "<Channel<T> as EventSource>::process_events", "struct Sender / SyncSender (field order)"],
+              "1 sender thread, 2 messages + drop, capacities {unbounded, 0, 1}, loop 3 rounds, batch <= 3, every interleaving",
+              replay=["p_chan_stress", "d11_sync_channel_zero_blocking_send"], kind="P"),
+    "exec": M("p_exec", PQ.p_exec, PQ.p_exec.__doc__, ["futures::Sender::send", "<Executor<T> as EventSource>::process_events"],
+              "2 waker threads, loop 3 rounds x 2 dequeues, every interleaving", replay=["p_exec_stress"], kind="P"),
+    "sig": M("p_sig", PQ.p_sig, PQ.p_sig.__doc__, ["EventLoop::run", "EventLoop::block_on", "EventLoopWaker::wake/wake_by_ref", "LoopSignal::stop/wakeup"],
+             "2 wakes / stop+wakeup from one remote thread, 3 loop iterations, every interleaving", replay=["p_sig_stress"], kind="P"),
+}
+
+
+def addm(pid, obs):
+    PROPS.setdefault(pid, dict(level="proof", k=[], m=[], bounds="", outside="", assumptions=[]))
+    PROPS[pid]["m"] = PROPS[pid].get("m", []) + obs
+
+
+addm("C01", [M_DE["disp1"], M_DE["fsub"]])
+addm("C02", [M_DE["disp1"], M_CH["process"], M_EX["process"]])
+addm("C03", [M_PING["ping"], P_Q["ping"]])
+P("C04", "model_checking", [], [M_CH["send"], M_CH["process"], M_PING["ping"], P_Q["chan"]],
+  bounds="engine M: all paths, receive loop unrolled twice, batch limit for every 64-bit capacity; engine P: see obligation bounds",
+  outside="std::sync::mpsc itself (linearizable FIFO, disconnect when the last sender is dropped; try_recv on a zero-capacity "
+          "channel pairs with a blocked sender); weak memory; more than one sender thread in the interleaving query")
+addm("C06", [M_H["remove"], M_H["disable"], M_H["update"], M_H["enable"], M_DE["rm3"]])
+addm("C07", [M_H["disable"], M_H["enable"], M_DE["pa2"]])
+addm("C08", [M_DE["re1"], M_H["re2"], M_EX["process"], M_DE["pa2"], M_H["idles"]])
+addm("C09", [M_DE["pa2"], M_DE["pav"], M_H["disable"], M_H["update"]])
+P("C10", "model_checking", [], [M_EX["process"], M_EX["send"], M_EX["drop"], M_EX["stream"], P_Q["exec"]],
+  bounds="engine M: dequeue/poll loops unrolled twice; engine P: see obligation bounds",
+  outside="async_task internals (a wake of a non-running, non-scheduled task calls the schedule function once; futures are "
+          "polled only inside Runnable::run, which only the loop thread calls); weak memory")
+P("C11", "model_checking", [], [M_L["run"], M_L["block_on"], M_L["signal"], P_Q["sig"]],
+  bounds="engine M: 2 loop iterations; engine P: 3 iterations, 2 remote operations",
+  outside="the stickiness of Poller::notify itself (polling's documented contract, modelled); a stop() racing run's initial reset "
+          "(excluded by the property text)")
+addm("C12", [M_DE["lc2"]])
+addm("C13", [M_H["idles"], M_H["insidle"]])
+addm("C14", [M_DE["lc2"], M_DE["fsub"]])
+addm("C15", [M_H["reg1"], M_IO["new"], M_DE["err1"], M_DE["pa2"]])
+addm("C16", [M_IO["drop"], M_IO["new"], M_DE["rm3"]])
+addm("C17", [M_IO["io"], M_IO["new"], M_IO["drop"]])
+for _p in ("C03",):
+    PROPS[_p]["level"] = "model_checking"
+
+PROPS["DEV"] = dict(level="proof", k=[], m=list(P_Q.values()))
